@@ -12,5 +12,6 @@ PROP = dict(
         R("dist", "B", "./internal/stats", "TestC12Dist", (4000, 4), (200000, 16)),
         R("beta", "B", "./internal/stats", "TestC12Beta", (6000, 2), (300000, 16)),
         R("ttest", "B", "./internal/stats", "TestC12TTest", (3000, 4), (100000, 16)),
+        R("descr", "B", "./internal/stats", "TestC12Descr", (3000, 4), (100000, 16)),
     ],
 )
